@@ -191,11 +191,13 @@ Definition row_get (r : row) (k : rkey) : option Z :=
   match md_index k (md_keymap (row_md r)) with Some i => nth_error (row_data r) i | None => None end.
 
 Record frozen := mkFrozen { fr_md : rowmd; fr_scalars : bool; fr_data : list (list Z) }.
-(* SimpleResultMetaData.__getstate__ keeps "_keys" only; __setstate__ rebuilds the keymap from the keys
-   alone: every additional lookup key of the frozen metadata (Column objects, but also the STRING aliases
-   such as Column.key or the table-qualified label) is gone afterwards *)
-Definition rebuild (keys : list Z) : list (rkey * nat) := combine (map KStr keys) (seq 0 (List.length keys)).
-Definition simple_md_roundtrip (m : rowmd) : rowmd := mkMd (md_keys m) (rebuild (md_keys m)).
+(* SimpleResultMetaData.__getstate__ keeps "_keys" and, per column, the extra lookup keys that are
+   STRINGS (Column.key, table-qualified label); __setstate__ rebuilds the keymap from them: restricted
+   to string keys the keymap is the one the frozen metadata had, every other key (Column objects) is gone.
+   (The keymap handed to the model always contains the result keys themselves.) *)
+Definition str_key (k : rkey) : bool := match k with KStr _ => true | _ => false end.
+Definition simple_md_roundtrip (m : rowmd) : rowmd :=
+  mkMd (md_keys m) (filter (fun e => str_key (fst e)) (md_keymap m)).
 Definition frozen_roundtrip (f : frozen) : frozen :=
   mkFrozen (simple_md_roundtrip (fr_md f)) (fr_scalars f) (fr_data f).
 (* FrozenResult.__call__().all() and .keys() *)
@@ -232,7 +234,7 @@ Fixpoint split_on (c : Z) (s : str) : list str :=
   | x :: r => if x =? c then [] :: split_on c r
               else match split_on c r with [] => [[x]] | h :: t => (x :: h) :: t end
   end.
-(* up to the first newline: what the regex group "dot star" captures *)
+(* the text before the first occurrence of c *)
 Fixpoint upto (c : Z) (s : str) : str :=
   match s with [] => [] | x :: r => if x =? c then [] else x :: upto c r end.
 Fixpoint after_first (c : Z) (s : str) : option str :=
@@ -269,7 +271,7 @@ Section Serializer.
     | None => LErr ENoMatch
     | Some rest =>
         let ty := upto colon id in
-        let args := upto newline rest in
+        let args := rest in
         if str_eqb ty s_table then
           match find_table args tables with Some _ => LOk (LTable args) | None => LErr EKey end
         else if str_eqb ty s_column then
@@ -317,16 +319,16 @@ Section Serializer.
         end
     end.
 
-  Definition clean (s : str) : bool := forallb (fun x => negb (x =? colon) && negb (x =? newline)) s.
-  Definition no_newline (s : str) : bool := forallb (fun x => negb (x =? newline)) s.
-  (* the persistent object exists in the target environment and its names survive the id syntax *)
+  Definition no_colon (s : str) : bool := forallb (fun x => negb (x =? colon)) s.
+  (* the persistent object exists in the target environment and its names survive the id syntax
+     (the id is split on ':'; since the regex is compiled with DOTALL newlines are harmless) *)
   Definition leaf_ok (l : leaf) : bool :=
     match l with
-    | LTable t => no_newline t && match find_table t tables with Some _ => true | None => false end
-    | LColumn t c => clean t && clean c &&
+    | LTable t => match find_table t tables with Some _ => true | None => false end
+    | LColumn t c => no_colon t && no_colon c &&
                      match find_table t tables with Some cs => has_str c cs | None => false end
     | LMapper _ | LSelectable _ => true
-    | LProp cls k => clean k && has_str k (props cls)
+    | LProp cls k => no_colon k && has_str k (props cls)
     end.
   Fixpoint stmt_ok (s : stmt) : bool :=
     match s with SLeaf l => leaf_ok l | SNode _ ch => forallb stmt_ok ch end.
